@@ -48,11 +48,11 @@ META = {
     'out_of_reach': [
         'whole-image fixpoint for EVERY image: decided structure by structure for the classes listed and, end to end, on the scenario images only (El Torito / isohybrid images are covered by their structure round trips, not by a whole-image scenario)',
     ],
-    'bounded': ['19 whole-image scenarios (14 ISO9660/Joliet/Rock Ridge scripts, 5 UDF scripts): open the written image, write again, byte-identical; file contents symbolic'],
+    'bounded': ['24 whole-image scenarios (19 ISO9660/Joliet/Rock Ridge scripts, 5 UDF scripts): open the written image, write again, byte-identical; file contents symbolic'],
 }
 
 MANIFEST = {
-    'level_text': 'Proof (deductive) of parse/record round trips, structure by structure: DirectoryRecord (record -> parse -> record identity and recovery of the logical entry, all identifier lengths, XA), PathTableRecord, DirectoryRecordDate, VolumeDescriptorDate, El Torito validation entry / entry / boot info table, UDF timestamp, Rock Ridge TF, boot record; parse refusing inconsistent both-endian fields with InvalidISO only. Plus whole-image fixpoints executed by the verifier on the real code for 19 edit scripts (symbolic contents): ISO9660, XA, Rock Ridge 1.09/1.10/1.12 with multi-entry names and symbolic links ending at and inside component boundaries, continuation areas, relocation, Joliet, UDF.',
+    'level_text': 'Proof (deductive) of parse/record round trips, structure by structure: DirectoryRecord (record -> parse -> record identity and recovery of the logical entry, all identifier lengths, XA), PathTableRecord, DirectoryRecordDate, VolumeDescriptorDate, El Torito validation entry / entry / boot info table, UDF timestamp, Rock Ridge TF, boot record; parse refusing inconsistent both-endian fields with InvalidISO only. Plus whole-image fixpoints executed by the verifier on the real code for 24 edit scripts (symbolic contents): ISO9660, XA, Rock Ridge 1.09/1.10/1.12 with multi-entry names and symbolic links ending at and inside component boundaries, continuation areas, relocation, Joliet, UDF.',
     'level_note': 'Trusted: pyvc, z3, struct model. Structure round trips hold for all inputs; the whole-image fixpoint is bounded to the scenario images.',
     'design_ref': 'DESIGN.md section 4 C05',
 }
